@@ -210,6 +210,7 @@ Proof.
   intros c Hc. unfold upper_of, ascii_upper_c.
   destruct ((97 <=? c) && (c <=? 122)); [reflexivity|].
   destruct (N.eqb_spec c 223) as [He|He]; [lia|].
+  destruct (N.eqb_spec c 962) as [He2|He2]; [lia|].
   cbn [find case_pairs fst snd].
   repeat match goal with
   | |- context [N.eqb ?a c] => destruct (N.eqb_spec a c) as [Hx|Hx]; [lia|clear Hx]
@@ -236,13 +237,17 @@ Proof.
     cbn [flat_map map]. rewrite (upper_of_ascii c Hc), (IHr Hr). reflexivity.
 Qed.
 
-Lemma to_lower_ascii : forall s, forallb (fun c => c <? 128)%N s = true -> to_lower s = map ascii_lower s.
+Lemma lower_ctx_ascii : forall s b, forallb (fun c => c <? 128)%N s = true -> lower_ctx b s = map ascii_lower s.
 Proof.
-  intros s. unfold to_lower. induction s as [|c r IHr]; intros Hall.
+  induction s as [|c r IHr]; intros b Hall.
   - reflexivity.
   - cbn [forallb] in Hall. apply andb_true_iff in Hall as [Hc Hr].
-    cbn [flat_map map]. rewrite (lower_of_ascii c Hc), (IHr Hr). reflexivity.
+    cbn [lower_ctx map]. assert (Hn : (c =? 931) = false) by (apply N.eqb_neq; apply N.ltb_lt in Hc; lia).
+    rewrite Hn, (lower_of_ascii c Hc), (IHr _ Hr). reflexivity.
 Qed.
+
+Lemma to_lower_ascii : forall s, forallb (fun c => c <? 128)%N s = true -> to_lower s = map ascii_lower s.
+Proof. intros s H. unfold to_lower. apply lower_ctx_ascii. exact H. Qed.
 
 (** ** parse_bool *)
 Lemma parse_bool_spec : forall s b, parse_bool s = Some b <-> s = (if b then t_true else t_false).
